@@ -682,12 +682,133 @@ def o_temp_age(scen, nat, msg):
                 signature=dict(op="maintenance", what="temp file removed/kept against the age rule"))
 
 
+def align_calls(scen, calls, begin):
+    """Map KFS call numbers to indices into the whole-process strace list (greedy, by kind)."""
+    out = {}
+    j = begin + 1
+    for c in scen["calls"]:
+        names = SYSCALLS.get(c["kind"], [])
+        k = j
+        while k < len(calls) and not (calls[k][0] in names and "kvreplay-marker" not in calls[k][1]):
+            k += 1
+        if k >= len(calls):
+            break
+        out[c["n"]] = k
+        j = k + 1
+    return out
+
+
+def apply_env_action(root, e):
+    path = os.path.join(root, e["path"])
+    if e["action"] == "unlink":
+        try:
+            os.unlink(path)
+        except OSError:
+            pass
+    elif e["action"] == "mkdir":
+        os.makedirs(path, exist_ok=True)
+    elif e["action"] == "publish":
+        os.makedirs(os.path.dirname(path), exist_ok=True)
+        tmp = path + ".peer-tmp"
+        f = dict(e.get("file", {}))
+        f.setdefault("content", 100)
+        write_file(tmp, dict(content=f.get("content", 100), mode=0o444, at_s=f.get("at_s", 0), at_ns=f.get("at_ns", 0), mt_s=f.get("mt_s", 0), mt_ns=f.get("mt_ns", 0)))
+        os.rename(tmp, path)
+    elif e["action"] == "restamp" and os.path.exists(path):
+        f = e.get("file", {})
+        os.utime(path, ns=(max(0, f.get("at_s", 0)) * 10**9 + f.get("at_ns", 0), max(0, f.get("mt_s", 0)) * 10**9 + f.get("mt_ns", 0)))
+
+
+def run_with_env(scen, nat, profile, action):
+    """Run the scenario's operation natively, holding the process right before its call number
+    `action.before_call` (strace delivers SIGSTOP when the preceding system call returns) while the
+    driver performs the peer's step.  -> observation dict, or None when the point cannot be located."""
+    root0 = nat.sandbox()
+    try:
+        nat.materialise(root0, scen)
+        args0 = op_args(scen, root0)
+        if args0 is None:
+            return None
+        calls = full_strace(nat, args0, profile)
+    finally:
+        shutil.rmtree(root0, ignore_errors=True)
+    begin = next((i for i, (n, ln) in enumerate(calls) if "kvreplay-marker-begin" in ln), None)
+    if begin is None:
+        return None
+    amap = align_calls(scen, calls, begin)
+    n = action["before_call"]
+    if n not in amap:
+        return None
+    stop_idx = amap[n] - 1          # the system call after which we stop
+    stop_name = calls[stop_idx][0]
+    count = sum(1 for (nm, _l) in calls[:stop_idx + 1] if nm == stop_name)
+    root = nat.sandbox()
+    try:
+        nat.materialise(root, scen)
+        args = op_args(scen, root)
+        before = snapshot(root)
+        slog = tempfile.mktemp(prefix="kvr-strace-")
+        cmd = ["strace", "-f", "-y", "-o", slog, "-e", "trace=%file,%desc,fsync,fdatasync", "-e", "inject=%s:signal=SIGSTOP:when=%d" % (stop_name, count),
+               nat.bins[profile]] + [str(a) for a in args]
+        p = subprocess.Popen(cmd, stdout=subprocess.PIPE, stderr=subprocess.PIPE)
+        stopped = False
+        t0 = time.time()
+        while time.time() - t0 < 20 and p.poll() is None:
+            kids = subprocess.run(["pgrep", "-P", str(p.pid)], stdout=subprocess.PIPE).stdout.decode().split()
+            for kpid in kids:
+                try:
+                    st = open("/proc/%s/stat" % kpid).read().split()[2]
+                except OSError:
+                    continue
+                if st in ("t", "T"):
+                    apply_env_action(root, action)
+                    os.kill(int(kpid), 18)  # SIGCONT
+                    stopped = True
+                    break
+            if stopped:
+                break
+            time.sleep(0.02)
+        out, _err = p.communicate(timeout=60)
+        after = snapshot(root)
+        lines = open(slog, errors="replace").read().splitlines() if os.path.exists(slog) else []
+        if os.path.exists(slog):
+            os.remove(slog)
+        return dict(out=parse_out(out.decode(errors="replace").splitlines()), raw=out.decode(errors="replace").splitlines(), before=before, after=after,
+                    stopped=stopped, stop_after="%s #%d" % (stop_name, count), action=action, strace_tail=lines[-12:])
+    finally:
+        shutil.rmtree(root, ignore_errors=True)
+
+
+def o_env_no_error(scen, nat, msg):
+    """C05/C06: with the scenario's peer step performed at the scenario's instant, the operation must still succeed."""
+    if not scen.get("env"):
+        return None
+    bad = {}
+    tried = []
+    for action in reversed(scen["env"]):
+        hits = []
+        for profile in ("debug", "release"):
+            r = run_with_env(scen, nat, profile, action)
+            if r is None or not r["stopped"]:
+                continue
+            tried.append((action["action"], action["path"], action["before_call"], r["out"]["result"]))
+            if r["out"]["result"] != "ok" or r["out"]["panic"]:
+                hits.append((profile, "peer %s of %s right before our call #%d (after %s): result %s kind=%s %s" % (
+                    action["action"], action["path"], action["before_call"], r["stop_after"], r["out"]["result"], r["out"]["kind"], r["out"]["panic"] or "")))
+        if len(hits) >= 2:
+            return dict(reproduced=True, detail="; ".join("%s: %s" % h for h in hits),
+                        signature=dict(op=scen["op"]["code"], what="operation fails under a concurrent %s" % action["action"]))
+    return dict(reproduced=False, detail="operation succeeded natively under each recorded peer step: %r" % (tried,),
+                signature=dict(op=scen["op"]["code"], what="operation fails under concurrent activity"))
+
+
 ORACLES = [
+    (r"KV-C05: ", o_env_no_error),
     (r"KV-C17: application dot-files|KV-C17: application data next to the cache", o_dotfile_untouched),
     (r"KV-C17: temp files younger|KV-C02: temp files older", o_temp_age),
     (r"KV-C03: a failed flush is never followed by publication", o_flush_failed_published),
-    (r"KV-C03: files are made read-only before they become visible", o_readonly_before_visible),
-    (r"KV-C02: every key-named file is a complete read-only value", o_readonly_before_visible),
+    (r"files are made read-only before they become visible|a published file is never re-moded", o_readonly_before_visible),
+    (r"every key-named file is a complete read-only value", o_readonly_before_visible),
     (r"KV-C09: a fresh(ly)? (set|written|inserted) entry is not marked as used", o_fresh_not_accessed),
     (r"KV-C18: temporary files created by the library are not leaked", o_temp_leak),
     (r"KV-C11: a sharded cache never holds two copies", o_two_copies),
@@ -725,7 +846,7 @@ def replay(pid, rec, scratch):
     os.makedirs(os.path.join(REPLAY_DIR, pid), exist_ok=True)
     path = os.path.join(REPLAY_DIR, pid, u.name + ".json")
     first = msgs[0]
-    needle = first[:60]
+    needle = first.split(": ", 1)[-1][:50]
     scen, _r = capture(scratch, u, needle)
     doc = dict(property=pid, mode="scenario", harness=u.name, group=u.group, failing_assertions=msgs, scenario=scen,
                created=time.strftime("%Y-%m-%dT%H:%M:%S"))
